@@ -196,8 +196,54 @@ def table_success(ff, residues, kind, neutral=False):
     return {"table_rows": rows, "distinct": rows, "violations": violations, "samples": samples}
 
 
+def table_success_layouts(ff):
+    """complete standard structures in the layouts crystal structures come in: insertion-code numbering (two
+    consecutive residues that differ only by insertion code), waters that share the chain id of a peptide or of a
+    nucleic-acid strand and are listed after it"""
+    from pdb2pqr import main
+
+    rows, violations, samples = 0, [], []
+
+    def water(chain, num, serial, y):
+        return fixtures.residue_lines("WAT", chain, num, serial0=serial, offset=(0.0, y, 0.0), record="HETATM")
+
+    structs = {}
+    for a, b in (("PHE", "GLU"), ("GLU", "PHE"), ("ALA", "LYS")):
+        lines, serial = [], 1
+        for i, (name, num, ic) in enumerate([("ALA", 7, " "), (a, 8, " "), (b, 8, "A"), ("ALA", 9, " ")]):
+            rl = fixtures.residue_lines(name, "A", num, serial, (-3.8 * i, 0.0, 0.0), icode=ic)
+            serial += len(rl)
+            lines += rl
+        structs[f"insertion-code-{a}8-{b}8A"] = lines + ["TER"]
+    structs["peptide-then-waters-same-chain"] = fixtures.peptide_lines(["ALA", "SER", "GLY"], ter=False) + water("A", 20, 90, 9.0) + water("A", 21, 95, 13.0) + ["TER"]
+    for kind, bases, ffs in (("rna", ["RG", "RA", "RC", "RU"], ("amber", "charmm", "parse", "tyl06")), ("dna", ["DA", "DC", "DG", "DT"], ("amber", "charmm", "tyl06"))):
+        if ff in ffs:
+            structs[f"{kind}-strand-then-waters-same-chain"] = fixtures.nucleic_lines(bases, ter=False) + water("A", 30, 500, 12.0) + water("A", 31, 505, 16.0) + ["TER"]
+            structs[f"{kind}-strand-then-waters-other-chain"] = fixtures.nucleic_lines(bases) + water("W", 30, 500, 12.0) + ["TER"]
+    for name, lines in structs.items():
+        rows += 1
+        case = {"ff": ff, "structure": name}
+        try:
+            bm, defn = fixtures.prepared(lines)
+            r = main.non_trivial(fixtures.Args(ff=ff, pka_method=None, debump=True, opt=True), bm, None, defn, False)
+            miss = [f"{a.residue.name}{a.residue.res_seq}:{a.name}" for a in r["missed_residues"]]
+            if miss:
+                violations.append({"label": "all-atoms-parameterised", "values": case, "reproduced": True, "replay_detail": f"{name}: unassigned atoms {miss[:8]}"})
+            nres = len([x for x in bm.residues])
+            want = len({(ln[21], ln[22:27]) for ln in lines if ln.startswith(("ATOM", "HETATM"))})
+            if nres != want:
+                violations.append({"label": "residues-kept-apart", "values": case, "reproduced": True, "replay_detail": f"{name}: {nres} residues in the model, the input has {want}"})
+        except Exception as e:  # noqa: BLE001
+            violations.append({"label": "run-succeeds", "values": case, "reproduced": True, "replay_detail": f"{name}: real pipeline raised {type(e).__name__}: {str(e)[:160]}"})
+        if len(samples) < 2:
+            samples.append(case)
+    return {"table_rows": rows, "distinct": rows, "violations": violations, "samples": samples}
+
+
 def obligations(tier):
     obs = []
+    for ff in ("amber", "parse", "charmm") if tier == "quick" else ("amber", "charmm", "parse", "peoepb", "swanson", "tyl06"):
+        obs.append(Obligation(f"success-layouts-{ff}", table_success_layouts, dict(ff=ff), kind="table", group="success"))
     for ff in (0, 1, 2):
         for pka in (0, 1):
             for ligand in (0, 1):
